@@ -277,6 +277,14 @@ def run_contract(ex, c, argmap, st, e, yield_from=False):
     for label, fn in c._requires:
         goal = fn(ctx0)
         ex.oblige(st, '%s:%s' % (site, label), goal, 'call-pre', ctx0, lineno=getattr(e, 'lineno', None))
+    # well-founded recursion: the callee's measure is below the caller's measure at entry
+    dec_callee = getattr(c, 'decreases', None)
+    dec_caller = getattr(ex.c, 'decreases', None)
+    if dec_callee is not None and dec_caller is not None:
+        m_callee = dec_callee(ctx0)
+        m_caller = dec_caller(Ctx(pre=ex.entry, cur=ex.entry, args=ex.args))
+        ex.oblige(st, '%s:decreases' % site, z3.And(m_caller >= 0, m_callee < m_caller, m_callee >= 0),
+                  'call-pre', ctx0, lineno=getattr(e, 'lineno', None))
     outs = []
 
     def rely_step(s):
